@@ -32,6 +32,9 @@ type C01Spec struct {
 	Tapes [][]uint32 `json:"tapes,omitempty"`
 	Seed  uint64     `json:"seed"`
 	Exact bool       `json:"exact,omitempty"` // replay of an exact count over all 2^32 raw words
+	// API-level draws: the pick of a word / character inside Generate (Length 1), observed through the public API
+	APIChar *CharCfg `json:"api_char,omitempty"`
+	APIWL   *WLCfg   `json:"api_wl,omitempty"`
 }
 
 var shippedSizes = []uint32{uint32(len(spg.AgileWords)), uint32(len(spg.AgileSyllables)), 26, 52, 62, 68, 10, 6, 7, 61, 16, 58}
@@ -78,7 +81,7 @@ type drawObs struct {
 
 func observeDraw(n uint32, words []uint32) drawObs {
 	t := NewTape(TapeSpec{Mode: "raw", Words: words, Default: "zero"})
-	t.limit = 4096
+	t.limit = 8192
 	var o drawObs
 	func() {
 		defer func() {
@@ -108,12 +111,24 @@ func init() {
 		Technique: "deterministic simulation on a scripted random tape: seeded search over bounds x boundary tapes (range, consumption, memorylessness after rejection), with exact counting over all 2^32 raw words for seed-chosen and escalated bounds as adjudicator",
 		Rule:      "case = one bounded draw (bound n, tape of raw 32-bit words); distinct by hash of (n, tape); non-trivial = n >= 2. Exact counts: one case per (bound, 2^32 words), reported under exact_counts",
 		Assumptions: []string{"the raw word is the 4 bytes read from crypto/rand.Reader (go1.23.5: rand.Read = io.ReadFull(Reader, b))", "exact counts are exhaustive over the raw word only for the bounds listed in exact_counts; all other bounds rest on the seeded boundary search"},
-		Episodes:    map[string]int{"quick": 2400, "thorough": 80000},
+		Episodes:    map[string]int{"quick": 4000, "thorough": 80000},
 		TwiceEvery:  11,
 		Real:        []string{"spg.randomUint32n / randomUint32 (through the verif-tagged export)", "crypto/rand.Read, io.ReadFull (std)"},
 		Simulated:   []string{"crypto/rand.Reader (scripted tape of raw words)"},
 		Gen: func(seed uint64, tier string) interface{} {
 			r := Sub(seed, "config")
+			if r.Chance(0.15) {
+				s := &C01Spec{Seed: seed}
+				if r.Bool() {
+					cc := genCharCfg(r, charOpt{maxLen: 1, maxReq: 0, noEmptied: true})
+					cc.Length, cc.Require, cc.RequireSets = 1, 0, nil
+					s.APIChar = &cc
+				} else {
+					w := WLCfg{Words: genWords(r, listOpt{min: 2, max: 12, twins: 0.3, precap: 0.1, caseless: 0.1, dups: 0.4}), Length: 1, Cap: "none", Sep: SepCfg{Kind: "char", Char: ""}}
+					s.APIWL = &w
+				}
+				return s
+			}
 			s := &C01Spec{N: genBound(r), Seed: seed}
 			n := s.N
 			top := uint32(math.MaxUint32 - math.MaxUint32%n)
@@ -124,6 +139,10 @@ func init() {
 				pre := 0
 				if r.Chance(0.5) {
 					pre = 1 + r.Intn(5)
+				}
+				if r.Chance(0.2) {
+					// long runs of rejected words: "every continuation of the stream after a rejected value"
+					pre = pick(r, []int{8, 16, 23, 24, 25, 26, 31, 32, 33, 63, 64, 65, 100, 127, 128, 129, 200, 255, 256, 257, 500, 1000})
 				}
 				for j := 0; j < pre; j++ {
 					tp = append(tp, pick(r, rejectedLike))
@@ -144,6 +163,10 @@ func init() {
 		Run: func(c *Ctx, si interface{}) {
 			s := si.(*C01Spec)
 			n := s.N
+			if s.APIChar != nil || s.APIWL != nil {
+				runC01API(c, s)
+				return
+			}
 			if s.Exact {
 				if _, trouble := exactCount(c, n, "replay"); trouble != "" {
 					c.Trouble("exact count n=%d: %s", n, trouble)
@@ -588,6 +611,34 @@ func c01Exact(c *Ctx, tier string, seed uint64) {
 			jobs = append(jobs, job{n, "seed-chosen"})
 		}
 	}
+	// API-level escalations (at most 2) and, in the thorough tier, one seed-chosen configuration
+	done := map[string]bool{}
+	napi := 0
+	for _, es := range c.st.apiEscalations {
+		k := fmt.Sprint(es.APIChar, es.APIWL)
+		if b, err := json.Marshal(es); err == nil {
+			k = string(b)
+		}
+		if done[k] || napi >= 1 {
+			continue
+		}
+		done[k] = true
+		napi++
+		e2 := es
+		if tr := exactCountAPI(c, &e2, "escalated: the model filter disagreed with the code"); tr != "" {
+			c.Trouble("API exact count: %s", tr)
+		}
+	}
+	if tier == "thorough" {
+		w := WLCfg{Words: []string{"ka", "lo", "Ka", "mi", "zu", "lo", "reno", "apple"}, Length: 1, Cap: "none", Sep: SepCfg{Kind: "char", Char: ""}}
+		if tr := exactCountAPI(c, &C01Spec{APIWL: &w}, "thorough tier: word pick from a list with a duplicate and a twin"); tr != "" {
+			c.Trouble("API exact count: %s", tr)
+		}
+		cc := CharCfg{Length: 1, Allow: 4, AllowChars: "é-"}
+		if tr := exactCountAPI(c, &C01Spec{APIChar: &cc}, "thorough tier: character pick"); tr != "" {
+			c.Trouble("API exact count: %s", tr)
+		}
+	}
 	var sums []exactSummary
 	for _, j := range jobs {
 		t0 := nowS()
@@ -606,4 +657,259 @@ func c01Exact(c *Ctx, tier string, seed uint64) {
 	b, _ := json.Marshal(sums)
 	c.st.Samples = append(c.st.Samples, json.RawMessage(fmt.Sprintf(`{"exact_counts":%s}`, b)))
 	_ = filepath.Join
+}
+
+// ---------------------------------------------------------------------------
+// API-level draws: "whenever a generator picks one of n alternatives". The pick
+// of a word or a character inside Generate is observed through the public API
+// on raw boundary words; M-draw is again only a filter, disagreements are
+// adjudicated by exact counting of all 2^32 first words *through Generate*.
+// ---------------------------------------------------------------------------
+
+func apiGenerator(s *C01Spec) (g interface{}, alts []string, desc string, ok bool) {
+	curOrders = OrderSpec{Chars: "sorted", Words: "sorted", Visit: "sorted"}
+	if s.APIChar != nil {
+		rec := s.APIChar.Recipe()
+		m := modelChar(*s.APIChar)
+		return &rec, m.A, "CharRecipe" + s.APIChar.String(), len(m.A) > 0
+	}
+	b := s.APIWL.build()
+	if b.List == nil {
+		return nil, nil, "", false
+	}
+	return &b.Recipe, modelList(s.APIWL.Words).Kept, "WLRecipe" + s.APIWL.String(), true
+}
+
+func runC01API(c *Ctx, s *C01Spec) {
+	g, alts, desc, ok := apiGenerator(s)
+	if !ok {
+		return
+	}
+	n := uint32(len(alts))
+	if s.Exact {
+		if trouble := exactCountAPI(c, s, "replay"); trouble != "" {
+			c.Trouble("API exact count: %s", trouble)
+		}
+		return
+	}
+	if n < 2 {
+		return
+	}
+	r := Sub(s.Seed, "apiwords")
+	raw := uint32(0)
+	if s.APIWL != nil {
+		raw = uint32(len(s.APIWL.Words))
+	}
+	var words []uint32
+	for _, b := range []uint32{n, raw, n + 1, 2 * n} {
+		if b == 0 {
+			continue
+		}
+		top := uint32(math.MaxUint32 - math.MaxUint32%b)
+		words = append(words, top-1, top, top+1, math.MaxUint32, math.MaxUint32-1, b-1, b)
+	}
+	for k := 0; k < 6; k++ {
+		words = append(words, biasedWord(r, n))
+	}
+	for _, w := range words {
+		res := genOp(NewTape(TapeSpec{Mode: "raw", Words: []uint32{w}, Default: "zero"}), g)
+		c.Eval(1)
+		c.T(res.brief())
+		c.Distinct(desc, w)
+		if res.Kind != "ok" {
+			c.Count("api_generation_"+res.Kind, 1)
+			continue
+		}
+		consumed := len(res.Tape.Served) / 4
+		mi, macc := mdraw(n, w)
+		want := ""
+		if macc {
+			want = alts[mi]
+		}
+		agree := (consumed == 1) == macc && (!macc || res.Pw.S == want)
+		c.Count("api_draws_observed", 1)
+		if !agree {
+			c.Count("filter_disagreements", 1)
+			if !c.quiet {
+				c.st.Counters["escalate-api:"+desc]++
+				c.st.apiEscalations = append(c.st.apiEscalations, *s)
+			}
+			return
+		}
+	}
+	c.Sample(map[string]interface{}{"api_level": desc, "alternatives": n, "raw_words_tried": len(words)})
+}
+
+type apiCountResult struct {
+	Accepted uint64            `json:"accepted"`
+	Rejected uint64            `json:"rejected"`
+	Bad      uint64            `json:"bad"`
+	FirstBad string            `json:"first_bad,omitempty"`
+	Counts   map[string]uint64 `json:"counts"`
+}
+
+// countChildAPIMain: simcheck count-child-api <specfile> <lo> <hi>
+func countChildAPIMain(args []string) int {
+	b, err := os.ReadFile(args[0])
+	if err != nil {
+		fmt.Println(err)
+		return 2
+	}
+	var s C01Spec
+	if err := json.Unmarshal(b, &s); err != nil {
+		fmt.Println(err)
+		return 2
+	}
+	lo, _ := strconv.ParseUint(args[1], 10, 64)
+	hi, _ := strconv.ParseUint(args[2], 10, 64)
+	installOrderHooks()
+	gi, _, _, ok := apiGenerator(&s)
+	if !ok {
+		fmt.Println("cannot build generator")
+		return 2
+	}
+	g := asGen(gi)
+	fr := &fastReader{cont: 0}
+	rand.Reader = fr
+	res := apiCountResult{Counts: map[string]uint64{}}
+	for v := lo; v < hi; v++ {
+		fr.word = uint32(v)
+		fr.reads = 0
+		var out string
+		okc := func() (ok bool) {
+			defer func() {
+				if e := recover(); e != nil {
+					ok = false
+				}
+			}()
+			p, err := g.Generate()
+			if err != nil || p == nil {
+				return false
+			}
+			out = p.String()
+			return true
+		}()
+		if !okc {
+			res.Bad++
+			if res.FirstBad == "" {
+				res.FirstBad = fmt.Sprintf("word %#x: Generate failed", v)
+			}
+			continue
+		}
+		if fr.reads != 1 {
+			res.Rejected++
+			continue
+		}
+		res.Accepted++
+		res.Counts[out]++
+	}
+	ob, _ := json.Marshal(res)
+	fmt.Println(string(ob))
+	return 0
+}
+
+func exactCountAPI(c *Ctx, s *C01Spec, why string) (trouble string) {
+	_, alts, desc, ok := apiGenerator(s)
+	if !ok {
+		return "cannot build generator"
+	}
+	sp := *s
+	sp.Exact = true
+	sp.Tapes = nil
+	c.vspec = &sp
+	defer func() { c.vspec = nil }()
+	specFile := filepath.Join(c.scratch, fmt.Sprintf("api-count-%x.json", fnv64(desc)))
+	b, _ := json.Marshal(s)
+	os.WriteFile(specFile, b, 0644)
+	W := runtime.NumCPU()
+	if W > 16 {
+		W = 16
+	}
+	exe, _ := os.Executable()
+	type out struct {
+		res apiCountResult
+		err string
+	}
+	ch := make(chan out, W)
+	total := uint64(1) << 32
+	t0 := nowS()
+	for w := 0; w < W; w++ {
+		lo := total / uint64(W) * uint64(w)
+		hi := total / uint64(W) * uint64(w+1)
+		if w == W-1 {
+			hi = total
+		}
+		go func(lo, hi uint64) {
+			cmd := exec.Command(exe, "count-child-api", specFile, fmt.Sprint(lo), fmt.Sprint(hi))
+			cmd.Env = append(os.Environ(), "GOMAXPROCS=1")
+			ob, err := cmd.Output()
+			var o out
+			if err != nil {
+				o.err = fmt.Sprintf("api count child: %v: %s", err, tail(string(ob), 400))
+			} else if e := json.Unmarshal(ob, &o.res); e != nil {
+				o.err = "api count child output: " + e.Error()
+			}
+			ch <- o
+		}(lo, hi)
+	}
+	tot := apiCountResult{Counts: map[string]uint64{}}
+	for w := 0; w < W; w++ {
+		o := <-ch
+		if o.err != "" {
+			trouble = o.err
+			continue
+		}
+		tot.Accepted += o.res.Accepted
+		tot.Rejected += o.res.Rejected
+		tot.Bad += o.res.Bad
+		if tot.FirstBad == "" {
+			tot.FirstBad = o.res.FirstBad
+		}
+		for k, v := range o.res.Counts {
+			tot.Counts[k] += v
+		}
+	}
+	if trouble != "" {
+		return trouble
+	}
+	c.Eval(1)
+	c.Count("api_exact_count_configs", 1)
+	c.Count("api_exact_count_raw_words", 1<<32)
+	fmt.Printf("API exact count %s (%s): accepted=%d rejected=%d outputs=%d (%.1fs)\n", desc, why, tot.Accepted, tot.Rejected, len(tot.Counts), nowS()-t0)
+	if tot.Bad > 0 {
+		c.Violate("exact-count", "api-exact-failed-draws", "%s: Generate fails for %d raw words (%s)", desc, tot.Bad, tot.FirstBad)
+		return ""
+	}
+	if tot.Accepted <= 1<<31 {
+		c.Violate("exact-count", "api-exact-acceptance", "%s: only %d of 2^32 raw words are accepted", desc, tot.Accepted)
+		return ""
+	}
+	want := strset{}
+	for _, a := range alts {
+		want[a] = true
+	}
+	var minK, maxK string
+	var minC, maxC uint64 = math.MaxUint64, 0
+	keys := make([]string, 0, len(tot.Counts))
+	for k := range tot.Counts {
+		keys = append(keys, k)
+	}
+	sort.Strings(keys)
+	for _, k := range keys {
+		v := tot.Counts[k]
+		if !want[k] {
+			c.Violate("exact-count", "api-exact-foreign-output", "%s: output %q is not one of the %d alternatives", desc, k, len(alts))
+			return ""
+		}
+		if v < minC {
+			minC, minK = v, k
+		}
+		if v > maxC {
+			maxC, maxK = v, k
+		}
+	}
+	if len(tot.Counts) != len(alts) || minC != maxC {
+		c.Violate("exact-count", "api-exact-not-uniform", "%s: the %d alternatives are not selected by the same number of raw words: %q by %d, %q by %d (%d of %d alternatives ever selected; accepted %d, rejected %d)", desc, len(alts), minK, minC, maxK, maxC, len(tot.Counts), len(alts), tot.Accepted, tot.Rejected)
+	}
+	return ""
 }
